@@ -261,7 +261,7 @@ impl Object for PdfStream {
     fn from_primitive(p: Primitive, resolve: &impl Resolve) -> Result<Self> {
         match p {
             Primitive::Stream (stream) => Ok(stream),
-            Primitive::Reference (r) => PdfStream::from_primitive(resolve.resolve(r)?, resolve),
+            Primitive::Reference (r) => PdfStream::from_primitive(crate::object::resolve_chain(r, resolve)?, resolve),
             p => Err(PdfError::UnexpectedPrimitive {expected: "Stream", found: p.get_debug_name()})
         }
     }
